@@ -42,6 +42,17 @@ func genEscapes(r *rng) string {
 func init() {
 	suites["c06"] = func(e *emitter, r *rng, thorough bool) {
 		strHistories(e, r, false) // the returned content must stay what it was, whatever is read next with the same scratch
+		// long plain runs with one special or near-special byte at every lane (scanners that look at 8 or
+		// 16 bytes at a time), with and without an escape before the run
+		nearClassRuns("strchars", func(v []byte) {
+			tok := append(append([]byte{'"'}, v...), '"')
+			e.emit("rsb %s - 0", hs(tok))
+			e.emit("rs %s nil", hs(tok))
+			e.emit("usc %s -", hs(v))
+			esc := append(append([]byte(`"\n`), v...), '"')
+			e.emit("rsb %s - 0", hs(esc))
+			e.emit("rs %s -", hs(esc))
+		})
 		n := 3
 		if thorough {
 			n = 4
